@@ -3,7 +3,7 @@
  * every request may fail; ghost h3v_live = blocks handed out and not yet freed; h3v_failed = a request was refused. */
 #ifndef H3V_C17_CONTRACTS_H
 #define H3V_C17_CONTRACTS_H
-#include "common.h"
+#include "c04.contracts.h"
 #include "algos.h"
 extern int64_t h3v_live;
 extern _Bool h3v_failed;
@@ -266,5 +266,15 @@ __CPROVER_requires(__CPROVER_is_fresh(geoPolygon, sizeof(GeoPolygon)) && geoPoly
 __CPROVER_requires(__CPROVER_is_fresh(geoPolygon->holes, sizeof(GeoLoop) * (geoPolygon->numHoles > 0 ? geoPolygon->numHoles : 1)))
 __CPROVER_requires(__CPROVER_is_fresh(out, sizeof(H3Index) * h3v_n))
 __CPROVER_assigns(__CPROVER_object_whole(out), h3v_live, h3v_failed)
+__CPROVER_ensures(C17_POST(__CPROVER_return_value));
+
+/* ================= compactCells (C17), BOUNDED stand-in: at most C17_NMAX input cells ================= */
+#ifndef C17_NMAX
+#define C17_NMAX 2
+#endif
+H3Error compactCells_c17(const H3Index *h3Set, H3Index *compactedSet, const int64_t numHexes)
+__CPROVER_requires(C17_PRE && numHexes >= 0 && numHexes <= C17_NMAX)
+__CPROVER_requires(__CPROVER_is_fresh(h3Set, sizeof(H3Index) * C17_NMAX) && __CPROVER_is_fresh(compactedSet, sizeof(H3Index) * C17_NMAX))
+__CPROVER_assigns(__CPROVER_object_whole(compactedSet), h3v_live, h3v_failed)
 __CPROVER_ensures(C17_POST(__CPROVER_return_value));
 #endif
